@@ -13,6 +13,10 @@ use super::code::*;
 //@include prelude/real.rs
 //@include prelude/base_spec.rs
 //@include prelude/lemmas_stats.rs
+//@include prelude/lemmas_c10.rs
+//@include prelude/lemmas_c10_means.rs
+//@include prelude/lemmas_c16.rs
+//@include prelude/lemmas_c16_more.rs
 } // mod spec
 
 pub mod code {
